@@ -963,3 +963,64 @@ Definition run_alloc_infos (c : rcfg) (f : option figures) : list (nat * figures
 (** Does the injected panic fire? *)
 Definition panic_fires (c : rcfg) (site : psite) (pt k : nat) : bool :=
   negb (Nat.eqb (eff_size c) 0) && (k <? rounds c * eff_size c) && (pt <=? eff_aux c).
+
+(** * Runs with an arbitrary list of round sizes (tuned sample size)
+
+    Without an explicit [sample_size] the loop starts in [Tune { sample_size: 1 }]
+    and doubles the size round after round, then collects with the size reached:
+    a run is the concatenation, per thread, of sample programs of sizes
+    [n_0, n_1, ...] — which sizes is group [loop]'s subject (C19); here the list
+    is a parameter (taken from the recorded history in the correspondence check).
+    The same input counters are registered in every round. *)
+
+Fixpoint thread_log_rounds (c : rcfg) (t : nat) (sizes : list nat) (base : nat) : list (oev N) :=
+  match sizes with
+  | [] => []
+  | n :: rest =>
+      let g := gid t base in
+      map (map_ev g g) (obs (run_vis c) (sample_prog (r_entry c) (r_shape c) n (r_cs c) (r_udrop c)))
+      ++ thread_log_rounds c t rest (base + n)
+  end.
+
+Definition thread_log_sizes (c : rcfg) (sizes : list nat) (t : nat) : list (oev N) :=
+  (if Nat.eqb t 0 then match sizes with [] => [] | _ => [OTsStart] end else []) ++
+  thread_log_rounds c t sizes 0.
+
+Fixpoint sb_samples_sizes (c : rcfg) (t base : nat) (sizes : list nat) (ss : list (list (oev N))) : bool :=
+  match sizes, ss with
+  | [], [] => true
+  | n :: rest, s :: rs =>
+      let m := mcfg_of (r_entry c) (r_shape c) n (r_cs c) in
+      let f := localize t base n in
+      sb_sample m (map (map_ev f f) s) && sb_timed s && sb_samples_sizes c t (base + n) rest rs
+  | _, _ => false
+  end.
+
+(** Thread [t] ran one sample per element of [sizes], in that order, each of
+    the given size and each satisfying the per-sample clauses with the run's
+    counter set — in every round. *)
+Definition sb_thread_sizes (c : rcfg) (sizes : list nat) (t : nat) (l : list (oev N)) : bool :=
+  if eff_aux c <? t then match l with [] => true | _ => false end
+  else
+    match strip_initial t l with
+    | None => false
+    | Some l' => forallb (ev_thread_ok t) l' && sb_samples_sizes c t 0 sizes (split_samples l')
+    end.
+
+(** Call script limited to the calls whose per-thread ordinal is below [lim]. *)
+Definition script_fn_lim (v : vis) (s : scripts) (lim : option nat) (base : nat) (a : action) : list aop :=
+  match a, lim with
+  | Call i _ _, Some l => if base + i <? l then interp (sc_call s) [] else []
+  | _, _ => script_fn v s a
+  end.
+
+Definition sample_figures_at (c : rcfg) (s : scripts) (lim : option nat) (n base : nat) (before : list aop)
+  : option figures :=
+  snapshot_figures
+    (run_tally (script_fn_lim (run_vis c) s lim base)
+               (sample_prog (r_entry c) (r_shape c) n (r_cs c) (r_udrop c))
+               (tstate0 before)).
+
+Definition spec_figures_at (c : rcfg) (s : scripts) (lim : option nat) (n base : nat) : figures :=
+  let sh := eff_shape (r_entry c) (r_shape c) in
+  tally_of (timed_ops (script_fn_lim (run_vis c) s lim base) (path_of sh) (by_ref (r_entry c)) (r_udrop c) n).
